@@ -9,7 +9,7 @@ WAVE2 = "--wave2" in sys.argv
 CFDIR = "/tmp/cf2" if WAVE2 else "/tmp/cf"
 SRCROOT = "/tmp/mutout2" if WAVE2 else "/tmp/mutout"
 KOFF = 3 if WAVE2 else 0
-ALL = ["C01", "C02", "C03", "C04", "C05", "C08", "C09", "C10", "C11", "C12", "C13", "C14", "C15", "C16", "C17", "C18", "C19", "C20"]
+ALL = ["C01", "C02", "C03", "C04", "C05", "C07", "C08", "C09", "C10", "C11", "C12", "C13", "C14", "C15", "C16", "C17", "C18", "C19", "C20"]
 
 
 def detect(patch):
